@@ -23,3 +23,12 @@ add("C04", "exploration", "property-based testing: mutation of generated readout
 add("C05", "exploration", "property-based testing: round trip of long generated readout streams over adversarial chunkings",
     "Streams of up to 200 readouts / hundreds of KiB, expanded deterministically from drawn parameters, fed in single, bytewise, random and fixed-size chunkings (1..64 KiB, offsets, readout-length+-k) - the history quantifier the unit tests lack; output must equal the sent readouts, all valid.",
     "Readouts < 8000 bytes with lines < 200 bytes; data from the harness grammar (no '/' or '!' inside lines).", "DESIGN.md §4 C05")
+add("C14", "exploration", "property-based fuzzing: structured noise tokens x splittings through every reader/protocol; no-exception + post-noise usability oracle",
+    "Hypothesis noise built from structural bytes, non-ASCII, malformed identification/end lines and slices of genuine messages is fed through the HDLC reader (4 configs), the P1 reader and both protocol classes with four candidate lists; any escaping exception, non-list result or failing message accessor is a violation (bucketed by exception type and innermost han function), and a clean tail must then be delivered per C16.",
+    "Only exceptions escaping public calls count; logging disabled; bounded search.", "DESIGN.md §4 C14")
+add("C16", "exploration", "property-based testing: noise-prefix families + sequence-numbered clean tails, bounded-loss oracle",
+    "12 HDLC and 14 P1 noise families (parameterised, seeded) followed by 2..40 clean sequence-numbered messages, all splittings and configurations; the must-deliver set stated by C16 (all but the first; without stuffing those starting > 2047+len after the noise) must come out exactly once, valid, in order.",
+    "Clean frames are flag-free without stuffing; noise directly precedes the first opening flag / '/'.", "DESIGN.md §4 C16")
+add("C19", "exploration", "property-based testing of long call histories: drawn repeating blocks and a pattern grid, deep-size invariant sampled between calls",
+    "Hypothesis-drawn (prefix, repeating block, chunk size, configuration) streams of 96-384 KiB plus a grid of 23 hand-written endless patterns x 6-10 chunk sizes at 1 MiB (quick) / 16 MiB (thorough); invariant: deep size of the reader after read() <= constant + 2 x chunk, independent of bytes fed.",
+    "Deep size via sys.getsizeof over gc-reachable objects; a bounded experiment cannot prove a bound.", "DESIGN.md §4 C19")
